@@ -94,6 +94,28 @@ def spline_return(repo):
     raise T.TranslationError("SplineInterpolator._interpolate: unsupported return expression: %s" % text)
 
 
+def dict_paths(repo):
+    """Do the three path followers index into dicts?  object_for_path (mapper/model.py), replacing_for_path
+    (mapper/model_object.py, two sites) and InterpolatorPath.get_value (interpolator/query.py) must agree."""
+    def count(rel, qual):
+        tree, src = T.parse_file(repo, rel)
+        fn = T.find_function(tree, qual)
+        n = 0
+        for c in ast.walk(fn):
+            if isinstance(c, ast.Call) and isinstance(c.func, ast.Name) and c.func.id == "isinstance" and len(c.args) == 2 \
+                    and isinstance(c.args[1], ast.Name) and c.args[1].id == "dict":
+                n += 1
+        return n
+    got = (count("autofit/mapper/model.py", "AbstractModel.object_for_path"),
+           count("autofit/mapper/model_object.py", "ModelObject.replacing_for_path"),
+           count("autofit/interpolator/query.py", "InterpolatorPath.get_value"))
+    if got == (0, 0, 0):
+        return False, "no isinstance(.., dict) in object_for_path / replacing_for_path / get_value"
+    if got == (1, 2, 1):
+        return True, "isinstance(.., dict) -> obj[key] in object_for_path, replacing_for_path (x2), get_value"
+    raise T.TranslationError("dict handling of the path followers is inconsistent (isinstance(.., dict) counts %s, expected (0,0,0) or (1,2,1))" % (got,))
+
+
 def regenerate(repo=None):
     repo = repo or common.REPO
     info = T.translate_spec(repo, SPEC_LI, {})
@@ -101,6 +123,7 @@ def regenerate(repo=None):
         raise T.TranslationError("li_eval has no exact-rational flavour")
     kept, text, line = final_step(repo)
     spl_float, spl_text, spl_line = spline_return(repo)
+    dict_ok, dict_text = dict_paths(repo)
     lines = [
         "(* GENERATED by harness/vcheck/c20.py from %s -- do not edit. *)" % repo,
         "(* C20: leaf formula of LinearInterpolator._interpolate; statement form of the last step of __getitem__ *)",
@@ -121,6 +144,9 @@ def regenerate(repo=None):
             SPLINE, spl_line, spl_text, "yes" if spl_float else "no (the 0-d numpy array scipy returns)"),
         "Definition spline_returns_float : bool := %s." % ("true" if spl_float else "false"),
         "",
+        "(* %s *)" % dict_text,
+        "Definition dict_paths_followed : bool := %s." % ("true" if dict_ok else "false"),
+        "",
     ]
     out = "\n".join(lines)
     outfile = os.path.join(common.COQ, "C20", "Gen.v")
@@ -132,6 +158,7 @@ def regenerate(repo=None):
         "li_eval": {"source": info["source"], "line": info["line"]},
         "assigns_final": {"source": text, "line": line, "value": kept},
         "spline_returns_float": {"source": spl_text, "line": spl_line, "value": spl_float},
+        "dict_paths_followed": {"source": dict_text, "line": 0, "value": dict_ok},
     }
 
 
@@ -164,9 +191,9 @@ def t_get(t, path):
         if t is None:
             return None
         if isinstance(k, str):
-            if "o" not in t:
+            if "o" not in t and "d" not in t:
                 return None
-            hit = [c for kk, c in t["o"] if kk == k]
+            hit = [c for kk, c in t.get("o", t.get("d")) if kk == k]      # attribute, or key of a dict
             t = hit[0] if hit else None
         else:
             if "l" not in t or not (0 <= k < len(t["l"])):
@@ -189,9 +216,12 @@ def walk(t, tuples=False, private=False, pre=()):
     elif "l" in t:
         for i, c in enumerate(t["l"]):
             out += walk(c, tuples, private, pre + (i,))
-    elif "d" in t and tuples:
+    elif "d" in t:
+        # path_instances_of_class walks dicts like attribute dicts (string keys, "_" names skipped)
         for k, c in t["d"]:
-            out += walk(c, tuples, private, pre + (("D", k),))
+            if k.startswith("_") and not private:
+                continue
+            out += walk(c, tuples, private, pre + (k,))
     elif "t" in t and tuples:
         for i, c in enumerate(t["t"]):
             out += walk(c, tuples, private, pre + (("T", i),))
@@ -203,10 +233,7 @@ def t_get_any(t, path):
     for k in path:
         if t is None:
             return None
-        if isinstance(k, tuple) and k[0] == "D":
-            hit = [c for kk, c in t.get("d", []) if kk == k[1]]
-            t = hit[0] if hit else None
-        elif isinstance(k, tuple):
+        if isinstance(k, tuple):
             if "t" not in t or k[1] >= len(t["t"]):
                 return None
             t = t["t"][k[1]]
@@ -258,7 +285,14 @@ def has_tuple_float(t):
 
 
 def has_dict_float(t):
-    return any(isinstance(k, tuple) and k[0] == "D" for p in walk(t, tuples=True) for k in p)
+    def through_dict(p):
+        node = t
+        for k in p:
+            if "d" in node:
+                return True
+            node = t_get_any(node, (k,))
+        return False
+    return any(through_dict(p) for p in walk(t, tuples=True))
 
 
 def has_dict(t):
@@ -893,6 +927,8 @@ def ctree(t):
         return "TX %s" % cZ(t["x"])
     if "o" in t:
         return "TO %s" % clist(["(%s, %s)" % (cstr(k), ctree(c)) for k, c in t["o"]])
+    if "d" in t:
+        return "TD %s" % clist(["(%s, %s)" % (cstr(k), ctree(c)) for k, c in t["d"]])
     if "l" in t:
         return "TL %s" % clist(["(%s)" % ctree(c) for c in t["l"]])
     return "TT %s" % clist(["(%s)" % ctree(c) for c in t["t"]])
@@ -1098,9 +1134,6 @@ def run(ctx):
             ctx.sample({"insts": c["insts"][:2], "n_instances": len(c["insts"]), "feats": feats,
                         "query": {k: v for k, v in c["queries"][-1].items() if k != "requests"},
                         "returned": r["queries"][-1]["kind"]}, limit=6)
-        if any(has_dict(t) for t in c["insts"]):
-            ctx.hist("correspondence", "oracle-only (dict attribute: not expressible in the tree model)")
-            continue
         coq_cases.append(ccase(c, r))
         coq_idx.append(i)
     # pinned corpus cases of repaired findings: they must pass now (an obligation each, so a regression is named)
